@@ -187,6 +187,10 @@ impl<'a> PostConversionLinter for UserDefinedFunctionLinter<'a> {
                 self.visit_expression(right)
             }
             Expression::UnaryExpression(_, child) => self.visit_expression(child),
+            Expression::Parenthesis(child) => self.visit_expression(child),
+            Expression::BuiltInFunctionCall(_, args) | Expression::ArrayElement(_, args, _) => {
+                self.visit_expressions(args)
+            }
             _ => Ok(()),
         }
     }
